@@ -8,23 +8,28 @@ from .base import Emitter
 MULTI_MODULE = True
 
 
-def mod_name(i):
+def mod_name(spec, i):
+    """File stem (and identifier under a module-form import) of module i.  spec["stems"] overrides the default m<i>:
+    stems that differ only in letter case, or a module in a sub-directory that is called like the entry file."""
+    stems = spec.get("stems")
+    if stems:
+        return stems[i]
     return "main" if i == 0 else "m%d" % i
 
 
 def mod_file(spec, i):
     d = spec["mods"][i]["dir"]
-    return (d + "/" if d else "") + mod_name(i) + ".ms"
+    return (d + "/" if d else "") + mod_name(spec, i) + ".ms"
 
 
 def import_path(spec, i, j):
     di, dj = spec["mods"][i]["dir"], spec["mods"][j]["dir"]
     if di == dj:
-        return mod_name(j)
+        return mod_name(spec, j)
     if di == "" and dj:
-        return dj + "/" + mod_name(j)
+        return dj + "/" + mod_name(spec, j)
     if dj.startswith(di + "/"):
-        return dj[len(di) + 1:] + "/" + mod_name(j)
+        return dj[len(di) + 1:] + "/" + mod_name(spec, j)
     return None      # a module cannot reach upwards (`..` does not parse)
 
 
@@ -45,7 +50,7 @@ def render(spec):
     tmp = [0]
     # ---- sources
     for i, m in enumerate(mods):
-        L = ['print "enter %s"' % mod_name(i)]
+        L = ['print "enter %s"' % mod_name(spec, i)]
         for st in m["stmts"]:
             k = st[0]
             if k == "state":
@@ -53,6 +58,8 @@ def render(spec):
                 # every module uses the SAME internal names (cnt, hid): a lookup that leaks across modules shows up
                 L.append("cnt = %d" % (0 if True else j))
                 L.append("hid%d = 3" % j)
+                L.append("hidt%d: int = 4" % j)           # typed, but still not exported
+                L.append("const hidc%d: int = 5" % j)
                 L.append("export cell%d: [int...] = [0]" % j)
                 L.append("export n%d: int = %d" % (j, 10 + j))
                 L.append("export tot%d: int = 0" % j)
@@ -77,34 +84,34 @@ def render(spec):
             elif k == "use":
                 j, form, what = st[1], st[2], st[3]
                 if what == "tostr":
-                    L.append("print %s.to_str(%d)" % (mod_name(j), 7))
+                    L.append("print %s.to_str(%d)" % (mod_name(spec, j), 7))
                 elif what == "mk":
                     tmp[0] += 1
                     if form == "mod":
-                        L.append("k%d = %s.mkpeek%d()\nprint k%d()" % (tmp[0], mod_name(j), j, tmp[0]))
+                        L.append("k%d = %s.mkpeek%d()\nprint k%d()" % (tmp[0], mod_name(spec, j), j, tmp[0]))
                     else:
                         L.append("k%d = mkpeek%d()\nprint k%d()" % (tmp[0], j, tmp[0]))
                 elif form == "mod":
                     if what == "tot":
-                        L.append("print %s.tot%d" % (mod_name(j), j))
+                        L.append("print %s.tot%d" % (mod_name(spec, j), j))
                     elif what == "cell":
                         tmp[0] += 1
-                        L.append("c%d = %s.cell%d\nprint c%d[0]" % (tmp[0], mod_name(j), j, tmp[0]))
+                        L.append("c%d = %s.cell%d\nprint c%d[0]" % (tmp[0], mod_name(spec, j), j, tmp[0]))
                     else:
-                        L.append("print %s.%s%d()" % (mod_name(j), what, j))
+                        L.append("print %s.%s%d()" % (mod_name(spec, j), what, j))
                 else:
                     if what == "cell":
                         L.append("print cell%d[0]" % j)
                     else:
                         L.append("print %s%d()" % (what, j))
             elif k == "say":
-                L.append('print "%s says %s"' % (mod_name(i), st[1]))
+                L.append('print "%s says %s"' % (mod_name(spec, i), st[1]))
             elif k == "defvia":
                 j = st[1]
-                L.append("export via%d_%d: fn() -> int = fn() -> int {\n\treturn %s.bump%d() * 10\n}" % (i, j, mod_name(j), j))
+                L.append("export via%d_%d: fn() -> int = fn() -> int {\n\treturn %s.bump%d() * 10\n}" % (i, j, mod_name(spec, j), j))
             elif k == "usevia":
                 a, b = st[1], st[2]
-                L.append("print %s.via%d_%d()" % (mod_name(a), a, b))
+                L.append("print %s.via%d_%d()" % (mod_name(spec, a), a, b))
             elif k == "neg":
                 kind, j = st[1], st[2]
                 p = import_path(spec, i, j)
@@ -112,19 +119,27 @@ def render(spec):
                     L.append("import hid%d from %s" % (j, p))
                 elif kind == "import_absent":
                     L.append("import nope%d from %s" % (j, p))
+                elif kind == "import_hidden_typed":
+                    L.append("import hidt%d from %s" % (j, p))
+                elif kind == "import_hidden_const":
+                    L.append("import hidc%d from %s" % (j, p))
+                elif kind == "dot_hidden_typed":
+                    L.append("print %s.hidt%d" % (mod_name(spec, j), j))
+                elif kind == "dot_hidden_const":
+                    L.append("print %s.hidc%d" % (mod_name(spec, j), j))
                 elif kind == "dot_hidden":
-                    L.append("print %s.hid%d" % (mod_name(j), j))
+                    L.append("print %s.hid%d" % (mod_name(spec, j), j))
                 elif kind == "assign_module":
-                    L.append("%s = 5" % mod_name(j))
+                    L.append("%s = 5" % mod_name(spec, j))
                 elif kind == "assign_member":
-                    L.append("%s.n%d = 6" % (mod_name(j), j))
+                    L.append("%s.n%d = 6" % (mod_name(spec, j), j))
                 elif kind.startswith("opassign_member"):
                     sym = {"opassign_member": "+", "opassign_member_sub": "-", "opassign_member_mul": "*", "opassign_member_div": "/",
                            "opassign_member_mod": "%"}[kind]
-                    L.append("%s.n%d %s= 1" % (mod_name(j), j, sym))
+                    L.append("%s.n%d %s= 1" % (mod_name(spec, j), j, sym))
                 elif kind == "assign_fn_member":
-                    L.append("%s.bump%d = fn() -> int {\n\treturn 0\n}" % (mod_name(j), j))
-        L.append('print "leave %s"' % mod_name(i))
+                    L.append("%s.bump%d = fn() -> int {\n\treturn 0\n}" % (mod_name(spec, j), j))
+        L.append('print "leave %s"' % mod_name(spec, i))
         sources[i] = "\n".join(L) + "\n"
         files[mod_file(spec, i)] = sources[i]
     # ---- model
@@ -134,7 +149,7 @@ def render(spec):
 
     def run(i):
         nonlocal neg
-        out.append("enter %s" % mod_name(i))
+        out.append("enter %s" % mod_name(spec, i))
         for st in mods[i]["stmts"]:
             k = st[0]
             if k == "state":
@@ -164,7 +179,7 @@ def render(spec):
                 else:
                     out.append(str(s.cell))
             elif k == "say":
-                out.append("%s says %s" % (mod_name(i), st[1]))
+                out.append("%s says %s" % (mod_name(spec, i), st[1]))
             elif k == "usevia":
                 s = states[st[2]]
                 s.cnt += 1
@@ -172,7 +187,7 @@ def render(spec):
                 out.append(str(s.cnt * 10))
             elif k == "neg":
                 neg = (i, st[1], st[2])
-        out.append("leave %s" % mod_name(i))
+        out.append("leave %s" % mod_name(spec, i))
 
     states[0].done = True
     run(0)
@@ -189,12 +204,14 @@ def _neg_line(spec, i):
         if st[0] == "neg":
             kind, j = st[1], st[2]
             p = import_path(spec, i, j)
-            return {"import_hidden": "import hid%d from %s" % (j, p), "import_absent": "import nope%d from %s" % (j, p),
-                    "dot_hidden": "print %s.hid%d" % (mod_name(j), j), "assign_module": "%s = 5" % mod_name(j),
-                    "assign_member": "%s.n%d = 6" % (mod_name(j), j), "opassign_member": "%s.n%d += 1" % (mod_name(j), j), "opassign_member_sub": "%s.n%d -= 1" % (mod_name(j), j),
-                    "opassign_member_mul": "%s.n%d *= 1" % (mod_name(j), j), "opassign_member_div": "%s.n%d /= 1" % (mod_name(j), j),
-                    "opassign_member_mod": "%s.n%d %%= 1" % (mod_name(j), j),
-                    "assign_fn_member": "%s.bump%d = fn() -> int {" % (mod_name(j), j)}[kind]
+            return {"import_hidden_typed": "import hidt%d from %s" % (j, p), "import_hidden_const": "import hidc%d from %s" % (j, p),
+                    "dot_hidden_typed": "print %s.hidt%d" % (mod_name(spec, j), j), "dot_hidden_const": "print %s.hidc%d" % (mod_name(spec, j), j),
+                    "import_hidden": "import hid%d from %s" % (j, p), "import_absent": "import nope%d from %s" % (j, p),
+                    "dot_hidden": "print %s.hid%d" % (mod_name(spec, j), j), "assign_module": "%s = 5" % mod_name(spec, j),
+                    "assign_member": "%s.n%d = 6" % (mod_name(spec, j), j), "opassign_member": "%s.n%d += 1" % (mod_name(spec, j), j), "opassign_member_sub": "%s.n%d -= 1" % (mod_name(spec, j), j),
+                    "opassign_member_mul": "%s.n%d *= 1" % (mod_name(spec, j), j), "opassign_member_div": "%s.n%d /= 1" % (mod_name(spec, j), j),
+                    "opassign_member_mod": "%s.n%d %%= 1" % (mod_name(spec, j), j),
+                    "assign_fn_member": "%s.bump%d = fn() -> int {" % (mod_name(spec, j), j)}[kind]
     return ""
 
 
@@ -204,6 +221,11 @@ def generate(rng, max_mods=5, negative=False):
     n = rng.range(2, max_mods)
     dirs = [""] + [rng.choice(["", "", "lib", "lib", "lib/sub"]) for _ in range(n - 1)]
     spec = {"mods": [{"dir": d, "stmts": []} for d in dirs]}
+    naming = rng.weighted([("default", 3), ("case_twins", 2), ("entry_twin", 1)])
+    if naming == "case_twins":
+        spec["stems"] = ["main"] + ["util", "Util", "UTIL", "uTil"][:n - 1]
+    elif naming == "entry_twin":
+        spec["stems"] = ["main"] + ["m%d" % j for j in range(1, n)]
     # edges i -> j (i < j); every non-entry module reachable from some earlier module that can reach it
     edges = {}
     for j in range(1, n):
@@ -214,6 +236,11 @@ def generate(rng, max_mods=5, negative=False):
         k = rng.range(1, min(len(cands), 3))
         for i in rng.sample(cands, k):
             edges.setdefault(i, []).append(j)
+    if naming == "entry_twin":
+        # a module outside the entry's directory whose file is called like the entry file
+        sub = [j for j in range(1, n) if spec["mods"][j]["dir"]]
+        if sub:
+            spec["stems"][rng.choice(sub)] = "main"
     bare = [False] + [rng.chance(1, 5) for _ in range(n - 1)]      # modules without any export
     for i in range(n):
         stmts = []
@@ -270,9 +297,9 @@ def generate(rng, max_mods=5, negative=False):
         if cands:
             i, j = rng.choice(cands)
             forms = spec["mods"][i]["imported"][str(j)]
-            kinds = ["import_hidden", "import_absent"]
+            kinds = ["import_hidden", "import_absent", "import_hidden_typed", "import_hidden_const"]
             if "mod" in forms:
-                kinds += ["dot_hidden", "assign_module", "assign_member", "opassign_member", "assign_fn_member", "opassign_member_sub",
+                kinds += ["dot_hidden", "dot_hidden_typed", "dot_hidden_const", "assign_module", "assign_member", "opassign_member", "assign_fn_member", "opassign_member_sub",
                           "opassign_member_mul", "opassign_member_div", "opassign_member_mod"]
             spec["mods"][i]["stmts"].append(["neg", rng.choice(kinds), j])
     for m in spec["mods"]:
@@ -313,7 +340,7 @@ def valid(spec):
             elif st[0] == "neg":
                 if not any(s[1] == st[2] for s in seen):
                     return False
-                if (st[1] in ("dot_hidden", "assign_module", "assign_member", "assign_fn_member") or st[1].startswith("opassign_member")) and (st[2], "mod") not in seen:
+                if (st[1] in ("dot_hidden", "dot_hidden_typed", "dot_hidden_const", "assign_module", "assign_member", "assign_fn_member") or st[1].startswith("opassign_member")) and (st[2], "mod") not in seen:
                     return False
         if not state and any(s[0] in ("defvia",) for s in m["stmts"]):
             return False
@@ -334,10 +361,17 @@ def shrink(spec):
             if mods[i]["stmts"][k][0] == "state":
                 continue
             c = {"mods": [dict(m, stmts=list(m["stmts"])) for m in mods]}
+            if spec.get("stems"):
+                c["stems"] = list(spec["stems"])
             del c["mods"][i]["stmts"][k]
             if valid(c):
                 yield c
     # drop the last module if nothing imports it
     last = len(mods) - 1
     if last >= 1 and not any(s[0] in ("import", "use", "usevia", "neg", "defvia") and last in s[1:3] for m in mods for s in m["stmts"]):
-        yield {"mods": [dict(m, stmts=list(m["stmts"])) for m in mods[:-1]]}
+        c = {"mods": [dict(m, stmts=list(m["stmts"])) for m in mods[:-1]]}
+        if spec.get("stems"):
+            c["stems"] = list(spec["stems"][:-1])
+        yield c
+    if spec.get("stems"):
+        yield {"mods": [dict(m, stmts=list(m["stmts"])) for m in mods]}
